@@ -44,6 +44,14 @@ func Parse(argv []string) Args {
 	return a
 }
 
+var registry = map[string]func(Args){}
+
+// Register is called from each driver package's init().
+func Register(family string, f func(Args)) { registry[family] = f }
+
+// Lookup returns the registered driver.
+func Lookup(family string) (func(Args), bool) { f, ok := registry[family]; return f, ok }
+
 // TraceRand returns the RNG of one trace: a function of (seed, trace id) only, so that
 // a single trace can be re-executed in isolation.
 func TraceRand(seed int64, trace int) *rand.Rand {
